@@ -9,6 +9,7 @@ class PrimEnc(Stream):
     """aper.Marshal over reflect.StructOf types: the whole constraint space at bit offsets 0..7"""
     name = "prim-enc"
     sub = "aperenc"
+    retained_field = "enc"
     requires = ["Coq.Strings.String", "GoSlice", "AperCommon", "AperEnc", "AperCheck", "X691Check"]
     model_check = "enc_model_check"
     spec_check = "enc_spec_check"
@@ -34,6 +35,7 @@ class NgapEnc(Stream):
     """values of every NGAP message type and every transfer root, generated from the extracted schema"""
     name = "ngap-enc"
     sub = "ngapenc"
+    retained_field = "enc"
     requires = ["Coq.Strings.String", "GoSlice", "AperCommon", "AperEnc", "NgapSchema", "AperCheck", "X691Check"]
     model_check = "ngap_enc_model_check"
     spec_check = "ngap_enc_spec_check"
